@@ -321,7 +321,14 @@ def run(rep, tier):
             if fid == GCD:
                 callers.add(f['id'])
     want = set(x['id'] for x in [db.find_impl_fn(T_RATIO, ['Decimal'], m) for m in ('as_integer_ratio', 'numerator', 'denominator')] if x)
-    rep.ob('R-WHO-CALLS-GCD', 'callers', callers == want, 'gcd_special is called by %s' % sorted(callers))
+    import re as _re
+
+    def owner(fid):
+        return _re.sub(r'(::\{closure#\d+\})+$', '', fid)
+    # gcd_special's preconditions are established by interpreting the three ratio methods (callees inlined); any other caller must be a
+    # private helper (or closure) of that module, which is reachable only through them
+    bad_callers = [c for c in callers if owner(c) not in want and not (owner(c).startswith('fpdec::as_integer_ratio::') and 'Public' not in str((db.fns.get(owner(c)) or {}).get('vis')))]
+    rep.ob('R-WHO-CALLS-GCD', 'callers', bool(callers) and not bad_callers, 'gcd_special is called by %s%s' % (sorted(callers), ('; not allowed: %s' % bad_callers) if bad_callers else ''))
     rep.trust('L1 (textbook identities used by the gcd-loop proof): gcd(a,b) = gcd(b,a); gcd(a, b-a) = gcd(a,b); gcd(a, b/2^k) = gcd(a,b) for odd a and 2^k | b; gcd(a,0) = gcd(a,a) = a')
     rep.trust('L2: gcd(2^s * u, 2^e * w) = 2^min(s,e) * gcd(u, w) for odd u, w  (so 2^min(tz|x|, e) * gcd(oddpart|x|, 5^e) = gcd(|x|, 10^e))')
     rep.explanation = ('Hash::hash is, by MIR shape, exactly as_integer_ratio().hash(state); for all 19 scales x sign classes the three ratio methods return the same terms '
